@@ -90,7 +90,7 @@ PROPS["C13"] = {
         # (one unknown to the store) between local / remote writes, drops and re-creations
         {"name": "actor-news", "cmd": "actor", "args": {"n": {"quick": 80, "thorough": 3000}},
          "trace_module": "ActorTrace",
-         "trace_consts": dict(ENTRY, OpenCounts="TRUE", SyncSticky="TRUE", GateSync="TRUE", GateOpen="TRUE", Prop='"C13"'),
+         "trace_consts": dict(ENTRY, OpenCounts="TRUE", SyncSticky="TRUE", GateSync="TRUE", GateOpen="TRUE", DropClearsSettings="TRUE", Prop='"C13"'),
          "tv_timeout": 3000},
     ],
 }
@@ -120,7 +120,7 @@ PROPS["C12"] = {
         # subscriptions made, dropped and used through the real store actor (open-with-subscribe, subscribe, unsubscribe)
         {"name": "actor-events", "cmd": "actor", "args": {"n": {"quick": 120, "thorough": 3000}},
          "trace_module": "ActorTrace",
-         "trace_consts": dict(ENTRY, OpenCounts="TRUE", SyncSticky="TRUE", GateSync="TRUE", GateOpen="TRUE", Prop='"C12"'),
+         "trace_consts": dict(ENTRY, OpenCounts="TRUE", SyncSticky="TRUE", GateSync="TRUE", GateOpen="TRUE", DropClearsSettings="TRUE", Prop='"C12"'),
          "tv_timeout": 3000},
     ],
 }
@@ -268,7 +268,7 @@ PROPS["C07"] = {
                # the actor caches the capability of an open document: write attempts through the real actor thread
                {"name": "actor-caps", "cmd": "actor", "args": {"n": {"quick": 120, "thorough": 3000}},
                 "trace_module": "ActorTrace",
-                "trace_consts": dict(ENTRY, OpenCounts="TRUE", SyncSticky="TRUE", GateSync="TRUE", GateOpen="TRUE", Prop='"C07"'),
+                "trace_consts": dict(ENTRY, OpenCounts="TRUE", SyncSticky="TRUE", GateSync="TRUE", GateOpen="TRUE", DropClearsSettings="TRUE", Prop='"C07"'),
                 "tv_timeout": 3000}],
 }
 PROPS["C15"] = {
@@ -287,7 +287,7 @@ PROPS["C15"] = {
                # for), documents dropped and re-created in between, and the download flag of the events of remote inserts served after a change
                {"name": "actor-policy", "cmd": "actor", "args": {"n": {"quick": 80, "thorough": 3000}},
                 "trace_module": "ActorTrace",
-                "trace_consts": dict(ENTRY, OpenCounts="TRUE", SyncSticky="TRUE", GateSync="TRUE", GateOpen="TRUE", Prop='"C15"'),
+                "trace_consts": dict(ENTRY, OpenCounts="TRUE", SyncSticky="TRUE", GateSync="TRUE", GateOpen="TRUE", DropClearsSettings="TRUE", Prop='"C15"'),
                 "tv_timeout": 3000}],
 }
 PROPS["C16"] = {
@@ -313,7 +313,7 @@ PROPS["C16"] = {
                # the hash list and the policy of a dropped document as served by the real store actor between writes, drops and re-creations
                {"name": "actor-hashes", "cmd": "actor", "args": {"n": {"quick": 80, "thorough": 3000}},
                 "trace_module": "ActorTrace",
-                "trace_consts": dict(ENTRY, OpenCounts="TRUE", SyncSticky="TRUE", GateSync="TRUE", GateOpen="TRUE", Prop='"C16"'),
+                "trace_consts": dict(ENTRY, OpenCounts="TRUE", SyncSticky="TRUE", GateSync="TRUE", GateOpen="TRUE", DropClearsSettings="TRUE", Prop='"C16"'),
                 "tv_timeout": 3000}],
 }
 PROPS["C17"] = {
@@ -328,7 +328,7 @@ PROPS["C17"] = {
                # documents dropped and re-created in between
                {"name": "actor-peers", "cmd": "actor", "args": {"n": {"quick": 120, "thorough": 3000}},
                 "trace_module": "ActorTrace",
-                "trace_consts": dict(ENTRY, OpenCounts="TRUE", SyncSticky="TRUE", GateSync="TRUE", GateOpen="TRUE", Prop='"C17"'),
+                "trace_consts": dict(ENTRY, OpenCounts="TRUE", SyncSticky="TRUE", GateSync="TRUE", GateOpen="TRUE", DropClearsSettings="TRUE", Prop='"C17"'),
                 "tv_timeout": 3000}],
 }
 PROPS["C18"] = {
@@ -345,7 +345,7 @@ PROPS["C18"] = {
 
 # ------------------------------------------------------------------------------------------ C14
 ACTOR_CONSTS = dict(ENTRY, Docs="{1, 2}", Programs="<- Progs2", EntryU="<- UA", OpenCounts="TRUE", SyncSticky="TRUE",
-                    GateSync="TRUE", GateOpen="TRUE")
+                    GateSync="TRUE", GateOpen="TRUE", DropClearsSettings="TRUE")
 PROPS["C14"] = {
     "level": "model_checking",
     "rule": "model: 2 clients x every program of 2 requests out of 16 request shapes over 2 documents, all interleavings of "
@@ -357,18 +357,19 @@ PROPS["C14"] = {
                     "(respecting each client's own order) that explains every reply; real-time order between clients is not used"],
     "models": [
         {"name": "actor", "module": "MCActor", "workers": 12, "timeout": 1500, "consts": ACTOR_CONSTS,
-         "invariants": ["AllRepliesOk", "HandlesPositive", "CountsMatch", "AckedHeld"]},
+         "invariants": ["AllRepliesOk", "HandlesPositive", "CountsMatch", "AckedHeld", "PolicyLaw"]},
     ],
     "sensitivity": [
         {"base": "actor", "flip": {"OpenCounts": "FALSE"}},
         {"base": "actor", "flip": {"GateSync": "FALSE"}},
         {"base": "actor", "flip": {"SyncSticky": "FALSE"}},
         {"base": "actor", "flip": {"GateOpen": "FALSE"}},
+        {"base": "actor", "flip": {"DropClearsSettings": "FALSE"}},
     ],
     "drives": [
         {"name": "actor", "cmd": "actor", "args": {"n": {"quick": 120, "thorough": 4000}, "conc": {"quick": 150, "thorough": 4000}},
          "trace_module": "ActorTrace",
-         "trace_consts": dict(ENTRY, OpenCounts="TRUE", SyncSticky="TRUE", GateSync="TRUE", GateOpen="TRUE", Prop='"C14"'),
+         "trace_consts": dict(ENTRY, OpenCounts="TRUE", SyncSticky="TRUE", GateSync="TRUE", GateOpen="TRUE", DropClearsSettings="TRUE", Prop='"C14"'),
          "tv_timeout": 3000},
     ],
 }
@@ -575,7 +576,7 @@ PROPS["C04"] = {
 # ============================================================================================
 # Extensions of the specification beyond the 18 listed properties (bin/check X..; not in MANIFEST.json)
 EXTRA = {}
-API_CONSTS = dict(ENTRY, OpenCounts="TRUE", SyncSticky="TRUE", GateSync="TRUE", GateOpen="TRUE")
+API_CONSTS = dict(ENTRY, OpenCounts="TRUE", SyncSticky="TRUE", GateSync="TRUE", GateOpen="TRUE", DropClearsSettings="TRUE")
 EXTRA["X01"] = {
     "level": "model_checking",
     "rule": "client API and engine composition (src/api.rs, src/api/actor.rs, src/engine.rs DefaultAuthor, live.rs start_sync / "
